@@ -151,6 +151,20 @@ CLAIMED = {
         technique='Coq proof (case analysis of the cache step, path injectivity by length/slash counting) + differential '
                   'correspondence via vm_compute',
         ref='DESIGN.md section 5, C14'),
+    'C15': dict(
+        category='proof',
+        text='One inductive invariant over the interleaving relation of any number of get / get_or_compute callers (forced '
+             'or not) at the granularity acquire, exists, release, load, compute, truncate, write, rename, release - unbounded '
+             'callers and steps: every returned value was produced by a complete computation; the cache file is never seen '
+             'truncated; no reachable deadlock (some caller can always step until all returned); at quiescence the entry is '
+             'complete; a caller whose existence check finds the entry returns a stored value without computing and get never '
+             'answers NO_VALUE then, whatever forced writers do in between. Tied to FileCache/JsonCache by a cooperative '
+             'scheduler that parks real threads at those points and executes random and scripted schedules of 2-4 callers.',
+        note='partial: filelock is replaced by a cooperative lock (mutual exclusion of FileLock trusted), processes/flock and '
+             'chunked reads are not modelled, load is atomic as in the property text; the unguarded no-recompute theorem holds '
+             'for the repaired code (fix 7f52b40); before it the window schedule was a counterexample',
+        technique='Coq proof (inductive invariant over a small-step interleaving semantics) + schedule-controlled differential runs',
+        ref='DESIGN.md section 5, C15'),
     'C16': dict(
         category='proof',
         text='Theorems for every signature, positional prefix and keyword order: the decorator\'s normalisation binds '
